@@ -134,7 +134,7 @@ def checked(tgt, case):
 
     try:
         _signal.signal(_signal.SIGALRM, _alarm)
-        _signal.alarm(CASE_WATCHDOG_S)
+        _signal.alarm(int(getattr(tgt, "watchdog_s", CASE_WATCHDOG_S)))
     except (ValueError, AttributeError):
         pass
     try:
